@@ -395,7 +395,7 @@ func casesFor(f fn) []caseT {
 	default:
 		// seed-derived tuples: every input and every argument value occurs,
 		// plus extra random tuples
-		total := harness.N(24*n, 100*n)
+		total := harness.N(12*n, 100*n)
 		if f.Arity >= 2 && harness.Thorough() {
 			total = 200 * n
 		}
